@@ -99,5 +99,6 @@ package disk
 //@   loop 1 invariant[C18] oversizechunk: (failFast && c.proxy != nil) ==> (forall k Int :: (lo(chunk) <= k && k < lo(chunk) + rangeindex + 1 && elems(blobs)[k] != 0) ==> dSize(elems(blobs)[k]) <= c.maxProxyBlobSize)
 //@   loop 1 invariant chunkpos: arr(chunk) == arr(blobs) && lo(chunk) == hi(blobs) - len(remaining) - len(chunk) && lo(blobs) <= lo(chunk) && len(chunk) > 0
 //@   loop 0 modifies lruState(c.lru), elems(blobs), hitN, hitSize, visited, sendN, sentRefs
+//@   loop 1 step[C10] queuedunlessexcused: (elems(blobs)[lo(chunk) + rangeindex] != 0 && dSize(elems(blobs)[lo(chunk) + rangeindex]) <= c.maxProxyBlobSize) ==> sendN == sendN$1 + 1
 //@   loop 1 modifies sendN, sentRefs
 //@   call findMissingLocalCAS#* asserts[C10] chunk: arr(arg1) == arr(blobs) && lo(arg1) == hi(blobs) - len(remaining) - len(arg1) && 0 < len(arg1) && len(arg1) <= 20
